@@ -72,11 +72,9 @@ def check_chain(case, agg):
     with hooks.recording(agg) as rec:
         lines, exc = cps.run_method(cs, "collect_paths", "chain", "data")
     w = {"members": texts, "rows": rows}
-    if exc is not None:
-        # a predecessor that collected nothing leaves no data.csv to read: not decided
-        return "undecided", None
-    results = cs.results_manager.get_named_results("chain")
-    rd = cps.run_dirs("chain")[0]
+    results = cs.results_manager.get_named_results("chain") or []
+    rds = cps.run_dirs("chain")
+    rd = rds[0] if rds else None
     by_id = {}
     for ev in rec.lines:
         by_id.setdefault(ev["id"], []).append(ev)
@@ -84,6 +82,7 @@ def check_chain(case, agg):
     os.makedirs("stages", exist_ok=True)
     cur_path = origin
     exp_collected = []
+    drained = None  # index of a 'preceding' member whose predecessor collected nothing
     for j, p in enumerate(members):
         src = cur_path if j >= start else origin
         out, _c = standalone_lines(p, src)
@@ -92,11 +91,37 @@ def check_chain(case, agg):
         exp_collected.append((src, out))
         if not out:
             if j + 1 < len(members) and j + 1 >= start:
-                return "undecided", None
+                drained = j + 1
+                break
         sp = os.path.join("stages", f"s{j}.csv")
         with open(sp, "w", newline="") as f:
             f.write(lang.rows_to_text(out))
         cur_path = sp
+    if drained is not None:
+        # the predecessor collected nothing (it leaves no data.csv; the run may well end with an exception there):
+        # whatever else happens, the member must not have read or collected any line, least of all the original file's
+        agg.count("drained_chains")
+        r_ = [x for x in results if x.csvpath.identity == f"m{drained}"]
+        if r_ and rd:
+            evs = by_id.get(id(r_[0].csvpath), [])
+            mdir = os.path.join("archive", "chain", rd, f"m{drained}")
+            dp = os.path.join(mdir, "data.csv")
+            disk = cps.read_csv(dp) if os.path.exists(dp) else []
+            if evs or disk:
+                w.update({"member": drained, "read": [[str(v) for v in ev["line"]] for ev in evs][:5], "data.csv": disk[:5], "predecessor_collected": [], "run_exception": repr(exc)[:200] if exc else None})
+                return "member-read-wrong-input-predecessor-collected-nothing", w
+            mp = os.path.join(mdir, "manifest.json")
+            if os.path.exists(mp):
+                man = cps.read_json(mp)
+                if os.path.normpath(man.get("actual_data_file") or "x") == os.path.normpath(origin):
+                    w.update({"member": drained, "manifest_actual_data_file": man.get("actual_data_file")})
+                    return "manifest-actual_data_file-names-the-original", w
+        results = [x for x in results if x.csvpath.identity in [f"m{j}" for j in range(len(exp_collected))]]
+        if exc is not None:
+            agg.count("chains_checked")
+            return None, None
+    elif exc is not None:
+        return "undecided", None
     for j, r_ in enumerate(results):
         evs = by_id.get(id(r_.csvpath), [])
         read = [[str(v) for v in ev["line"]] for ev in evs]
